@@ -166,11 +166,14 @@ class Flow(Driver):
         for i, _ in enumerate(state['pending']):
             evs.append(['run_pending', i])
         for ev in self.late_open:
-            if ev[1] not in hs and not any(p['src'] == ev[1]
-                                           for p in state['prs']):
+            if ev[1] not in hs and ev[2] in hs and not any(
+                    p['src'] == ev[1] for p in state['prs']):
                 evs.append(ev)
         for a in self.admin:
             evs.append(list(a))
+        for t in self.spec.get('tags', []):
+            if 'refs/tags/' + t[1] not in state['refs'] and t[2] in hs:
+                evs.append(list(t))
         return evs
 
     def _can_push(self, w, tip):
@@ -345,7 +348,8 @@ class Admin(Flow):
 
     def enabled(self, w, state):
         from .monitors import dests
-        if set(dests(state)) != self.layout_dests:
+        if set(dests(state)) != self.layout_dests and \
+                not self.spec.get('continue_after_admin'):
             return []          # a branch was created or deleted: terminal
         if state['pending']:
             return [['run_pending', 0]]
